@@ -43,3 +43,48 @@ func vh_c06_lexctx_style_q()  { vc06_lexctx("<style>", "</style>", 3) }
 func vh_c06_lexctx_script_t() { vc06_lexctx("<script>", "</script>", 4) }
 func vh_c06_lexctx_style_t()  { vc06_lexctx("<style>", "</style>", 4) }
 func vh_c06_lexctx_json_t()   { vc06_lexctx("<script type=\"application/ld+json\">", "</script>", 3) }
+
+// The body of a macro with a result type is scanned in the context of that
+// type from its first to its last byte: a show placed after any block
+// statement of the body (if, for, switch, raw, a comment, arbitrary text) is
+// compiled for the macro's context, not for that of the enclosing file.
+func vc06_lexctx_macro() {
+	kinds := []string{"js", "css", "json", "html", "markdown"}
+	want := []ast.Context{ast.ContextJS, ast.ContextCSS, ast.ContextJSON, ast.ContextHTML, ast.ContextMarkdown}
+	k := vsym_choice(len(kinds))
+	blocks := []string{
+		"",
+		"{% raw %}x{% end raw %}",
+		"{% raw %}x{% end %}",
+		"{% raw a %}x{% end raw a %}",
+		"{% if a %}y{% end %}",
+		"{% if a %}y{% else %}z{% end if %}",
+		"{% for i := 0; i < 1; i++ %}y{% end for %}",
+		"{% switch %}{% default %}y{% end %}",
+		"{# c #}",
+		"{% if a %}{% raw %}x{% end %}{% end %}",
+	}
+	b := blocks[vsym_choice(len(blocks))]
+	txt := vsym_bytes(1)
+	for _, c := range txt {
+		vassume(c != '{' && c != '<' && c != '}' && c != '"' && c != '\'' && c != '/' && c != '`' && c != '\\' && c != '\t' && c != ' ' && c != '\n' && c != '\r')
+	}
+	src := []byte("{% macro M " + kinds[k] + " %}" + b + string(txt) + "{{ a }}{% end macro %}<p>{{ a }}</p>")
+	toks, err := vlexAll(src, ast.FormatHTML, false, false)
+	vassert(err == nil, "lexes")
+	n := 0
+	for _, tok := range toks {
+		if tok.typ == tokenLeftBraces {
+			if n == 0 {
+				vassert(tok.ctx == want[k], "show-in-a-typed-macro-body-has-the-macro-context")
+			} else {
+				vassert(tok.ctx == ast.ContextHTML, "show-after-the-macro-has-the-file-context")
+			}
+			n++
+		}
+	}
+	vassert(n == 2, "two-shows")
+	vreach("end")
+}
+
+func vh_c06_lexctx_macro_q() { vc06_lexctx_macro() }
